@@ -430,11 +430,13 @@ func firstLetterToBox(context *layoutContext, box Box, skipStack tree.ResumeStac
 				} else {
 					letterBox := bo.NewBlockBox(firstLetterStyle, textBox.Element, "first-letter", nil)
 					letterBox.FirstLetterStyle = nil
-					lineBox := bo.NewLineBox(firstLetterStyle, textBox.Element, "first-letter", nil)
+					// the line box is anonymous (WeasyPrint: letter_style): with the
+					// style of the first letter it would be floated itself
+					lineBox := bo.NewLineBox(letterStyle, textBox.Element, "first-letter", nil)
 					letterBox.Children = []Box{&lineBox}
 					textBox = bo.NewTextBox(letterStyle, textBox.Element, "first-letter", []rune(firstLetter))
 					lineBox.Children = []Box{textBox}
-					textBox.Children = append([]Box{letterBox}, textBox.Children...)
+					box.Box().Children = append([]Box{letterBox}, box.Box().Children...)
 				}
 				bo.ProcessTextTransform(textBox)
 				if skipStack != nil && childSkipStack != nil {
